@@ -939,6 +939,13 @@ class Exec:
         return TVoid()
 
 
+def _byte_char(b):
+    """A numeric escape denotes ONE BYTE of the execution string.  Below 0x80 that is the character; from 0x80 up it is a
+    lone byte, which is not the UTF-8 encoding of any character: kept apart as a lone surrogate (python's 'surrogateescape'
+    convention), so that "\\xb5" is not mistaken for the character U+00B5 (whose UTF-8 encoding is two bytes)."""
+    return chr(b) if b < 0x80 else chr(0xDC00 + b)
+
+
 def cpp_unescape(lit):
     "Value denoted by a C++ narrow string literal token (with quotes)."
     assert lit[0] == '"' and lit[-1] == '"'
@@ -955,14 +962,21 @@ def cpp_unescape(lit):
                 j = i + 2
                 while j < len(s) and s[j] in "0123456789abcdefABCDEF":
                     j += 1
-                out.append(chr(int(s[i + 2:j], 16) & 0xFF) if j > i + 2 else "x")
+                out.append(_byte_char(int(s[i + 2:j], 16) & 0xFF) if j > i + 2 else "x")
                 i = j
                 continue
+            if nx in "uU":
+                nd = 4 if nx == "u" else 8
+                h = s[i + 2:i + 2 + nd]
+                if len(h) == nd and all(c in "0123456789abcdefABCDEF" for c in h) and int(h, 16) <= 0x10FFFF:
+                    out.append(chr(int(h, 16)))
+                    i += 2 + nd
+                    continue
             if nx in "01234567":
                 j = i + 1
                 while j < len(s) and j < i + 4 and s[j] in "01234567":
                     j += 1
-                out.append(chr(int(s[i + 1:j], 8) & 0xFF))
+                out.append(_byte_char(int(s[i + 1:j], 8) & 0xFF))
                 i = j
                 continue
             out.append(simple.get(nx, nx))
